@@ -247,6 +247,7 @@ type State struct {
 	cloCells map[*Cell]*Val // closures stored in local cells (engine-level)
 	priv     map[string]bool // fresh references still private to the verified function (private.go)
 	privClean map[string]bool // private cells whose content came from outside (holds no private reference)
+	stable    map[string]bool // cells of captured variables that are never re-assigned (stablecell.go); set once at entry
 }
 
 func (st *State) clone() *State {
@@ -265,6 +266,7 @@ func (st *State) clone() *State {
 		n.ghost[k] = v
 	}
 	n.trace = append([]string(nil), st.trace...)
+	n.stable = st.stable
 	if st.priv != nil {
 		n.priv = make(map[string]bool, len(st.priv))
 		for k := range st.priv {
